@@ -432,7 +432,10 @@ def int_parameter_cases():
                 if float(mx) != float(arr[-1]) or float(mn) != float(arr[0]):
                     bad.append(f'parameters given as {ft.__name__}: {c_}min / {c_}max = {float(mn)!r} / {float(mx)!r} are not the end points {float(arr[0])!r} / {float(arr[-1])!r} of {c_}array')
                 tol = 1e-12 if ft is np.float64 else 0.0
-                if not np.allclose(np.asarray(arr, dtype=float), np.asarray(getattr(b, c_ + 'array'), dtype=float), rtol=1e-6 if ft is not np.float64 else 1e-14, atol=1e-6 * abs(float(mn)) + 1e-9):
+                barr = np.asarray(getattr(b, c_ + 'array'), dtype=float)
+                if len(arr) != par['N' + c_] or len(barr) != len(arr):
+                    bad.append(f'parameters given as {ft.__name__}: {c_}array has {len(arr)} points ({len(barr)} with the same values as Python floats), N{c_} = {par["N" + c_]}')
+                elif not np.allclose(np.asarray(arr, dtype=float), barr, rtol=1e-6 if ft is not np.float64 else 1e-14, atol=1e-6 * abs(float(mn)) + 1e-9):
                     bad.append(f'parameters given as {ft.__name__}: {c_}array differs from the grid described by the same values as Python floats')
     return bad, n
 
